@@ -85,7 +85,9 @@ def _quiet():
 # ----------------------------------------------------------------------------- directory layouts
 
 def gen_layout(rng, desc, for_cli=False, ambiguous=None, d9=None, badtop=False):
-    style = rng.choice(["semantic", "semantic", "opaque"])
+    # "per-species-dir": one directory per species, the SAME three base names in each (cg.itp, aa.itp, aa.gro) — files
+    # are told apart by their paths, never by their base names (seed C20-7: explicit files filtered out by basename)
+    style = rng.choice(["semantic", "semantic", "opaque", "per-species-dir"])
     sub = rng.random() < 0.3
     counter = [0]
 
@@ -93,6 +95,8 @@ def gen_layout(rng, desc, for_cli=False, ambiguous=None, d9=None, badtop=False):
         counter[0] += 1
         up = rng.random() < 0.15
         e = ext.upper() if up else ext
+        if style == "per-species-dir":
+            return f"{sp['name']}_dir/{ {'cg': 'cg', 'aaitp': 'aa', 'aagro': 'aa'}[role] }.{e}"
         if style == "opaque":
             base = f"f{rng.randrange(1000):03d}_{counter[0]}"
         else:
@@ -400,7 +404,8 @@ def generate(ctx):
             elif sp["aa"] is not None and not ls["explicit"] and rng.random() < 0.08:
                 sp["aa_name"] = sp["name"] + "_other"        # listed in --auto only: cannot be paired by name
         yield {"kind": "cli", "desc": desc, "layout": layout,
-               "scale": rng.choice([None, 0.5, 1.0, 0.3, 0.75, round(rng.uniform(0.1, 1.2), 3)]),
+               # 0 is a scale like any other ("with the given scale"; seed C20-8: `if scale` treats it as not given)
+               "scale": rng.choice([None, 0.5, 1.0, 0.3, 0.75, 0.0, 0.0, round(rng.uniform(0.1, 1.2), 3)]),
                "out": rng.choice([None, None, "result.gro", "outdir/final.gro", "ABS"]),
                "refstyle": rng.choice(["rel", "rel", "dot", "abs", "sub"]),
                "npseed": rng.randrange(2 ** 31), "perm_seed": rng.randrange(2 ** 31)}
